@@ -345,7 +345,13 @@ def r_scope_args(ck: Checker) -> None:
                     lp_t = enclosing_loop(func, c)
                     okk_t, n_t = every_iteration_reaches(ck, func, lp_t, c, None) if lp_t is not None else (False, 0)
                     if orgs == {f"{elem}.terms[*]"} and okk_t and n_t > 0 and c.lineno < call.lineno:
-                        seen_t = True
+                        # ... and what was collected is still there at the search: no path re-assigns the set afterwards
+                        holder = lp_t if lp_t is not None else enclosing_stmt(func, c)
+                        resets = {id(a): "tuple" for a in find_nodes(func.node, lambda q: isinstance(q, (ast.Assign, ast.AnnAssign))) if unparse(getattr(a, "target", None) or a.targets[0]) == gv_name}  # type: ignore[attr-defined]
+                        itm = ck.interp(func, None, mark_stmts={id(holder): "tuple"}, clear_marks_at=resets)
+                        sts = itm.states(call)
+                        if sts and all("tuple" in s.marks for s in sts):
+                            seen_t = True
             ck.add("aggregate: the variables of the element's tuple are observed", seen_t, func, call, f"`{gv_name}` receives the variables of every term of `{elem}.terms` before the search: {seen_t}",
                    "the tuple terms handed over in `rest` are bare terms, which the binding analysis ignores: `#sum{1,J1 : p(J1,X), p(J2,X), J1 != J2}` becomes `#sum{1,J1 : __aux(X)}` with an unsafe J1")
             ck.add("aggregate: tuple terms and the whole rule body are visible", ok_rest, func, call, f"rest argument {sorted(rest_t)}; expected list({elem}.terms)+list({stm}.body)",
